@@ -205,6 +205,24 @@ func genScenario(t *rapid.T, p genProfile) Scenario {
 	for i := 0; i < sc.NWatch; i++ {
 		sc.Init = append(sc.Init, *g.genLayer(t, i, initP))
 	}
+	if sc.NWatch > 0 && rapid.IntRange(0, 3).Draw(t, "static_after") == 0 {
+		// a non-watching source AFTER the watchers: it outranks their updates
+		sc.NStaticAfter = 1
+		l := &SimLayer{}
+		if rapid.Bool().Draw(t, "after_shared") {
+			l.Shared = ip(900)
+		}
+		if rapid.Bool().Draw(t, "after_a") {
+			l.A = ip(901)
+		}
+		if rapid.Bool().Draw(t, "after_list") {
+			l.HasList, l.List = true, []int{9, 0, 2}
+		}
+		if rapid.Bool().Draw(t, "after_psubx") {
+			l.PSubX = ip(903)
+		}
+		sc.Init = append(sc.Init, *l)
+	}
 	nops := rapid.IntRange(1, p.maxOps).Draw(t, "n_ops")
 	weights := []int{p.wReport, p.wView, p.wEvents, p.wReportErr, p.wRegister, p.wUnregister, p.wReleaseCB, p.wEnable}
 	if sc.NWatch == 0 {
